@@ -97,8 +97,14 @@ class TextPixelRegion(PointPixelRegion):
         """
         from matplotlib.text import Text
 
-        mpl_kwargs = self.visual.define_mpl_kwargs(self._mpl_artist)
-        mpl_kwargs.update(kwargs)
+        from matplotlib import cbook
+
+        # keywords may be given by any of the names matplotlib accepts
+        # (e.g., fontsize or size); use one name for each so that the
+        # caller's keywords override the visual attributes
+        mpl_kwargs = cbook.normalize_kwargs(
+            self.visual.define_mpl_kwargs(self._mpl_artist), Text)
+        mpl_kwargs.update(cbook.normalize_kwargs(kwargs, Text))
 
         return Text(self.center.x - origin[0], self.center.y - origin[1],
                     self.text, **mpl_kwargs)
